@@ -29,8 +29,8 @@ Do(c) ==
      /\ log' = log2
      /\ hist' = Append(hist, [a |-> c.a, k |-> (IF c.a = "restore" THEN c.k ELSE 0),
                               ok |-> AbsOk(st, c), cur |-> st2.cur, n |-> st2.n,
-                              kind |-> (IF ok THEN log2[Len(log2)].kind ELSE "none"),
-                              tgt |-> (IF ok THEN log2[Len(log2)].tgt ELSE 0)])
+                              kind |-> (IF Len(log2) > Len(log) THEN log2[Len(log2)].kind ELSE "none"),
+                              tgt |-> (IF Len(log2) > Len(log) THEN log2[Len(log2)].tgt ELSE 0)])
 
 Next == /\ Len(hist) < MaxLen
         /\ \E c \in Cmds : Do(c)
@@ -39,6 +39,9 @@ Spec == Init /\ [][Next]_<<st, log, hist>>
 
 InvRefines == /\ Refines(st, log)
               /\ \A c \in Cmds : AbsOk(st, c) = ImplOk(log, c, Bug)
+(* adjacent views of the stack differ, so undo and redo always change the view *)
+InvAdjacentDiffer ==
+  LET all == st.past \o <<st.cur>> \o st.future IN \A i \in 1..(Len(all) - 1) : all[i] # all[i + 1]
 (* the stack never loses a view: everything in past/future is a view of the log *)
 InvStackInLog == \A i \in 1..Len(st.past) : \E j \in 1..Len(log) : log[j].view = st.past[i]
 (* undo directly after a successful redo, and redo directly after a successful undo, cancel *)
